@@ -246,6 +246,24 @@ var props = map[string]propCfg{
 		Bounds:   "as C01: all byte strings <= 3/4, token sequences <= 2/3, and 1-2 free token slots inside 19 bracket/operator contexts (range bounds, groups, field values, prefix/suffix operators), with and without default field",
 		Outside:  "longer inputs; garbage needing more than 2 free tokens in one place",
 	},
+	"C12": {
+		Quick:    []hrun{{Harness: "JSONRoundTrip", Params: P("D", 1, "LEAVES", 4)}},
+		Thorough: []hrun{{Harness: "JSONRoundTrip", Params: P("D", 1, "LEAVES", 4)}, {Harness: "JSONRoundTrip", Params: P("D", 2, "LEAVES", 0)}},
+		Bounds:   "every tree of depth <= 1 over 23 leaf forms (all operators incl. default and explicit boost powers / fuzzy distances, inclusive/exclusive/open ranges, lists of strings and ints, empty quoted string, two-byte UTF-8 text, quotes/commas in values) with symbolic leaf bytes (quick); depth <= 2 over 3 leaf forms (thorough); through Parse, Marshal, Unmarshal, Validate, re-Marshal, String, Render, RenderParam",
+		Outside:  "encoding/json itself is replaced by a pure-Go stand-in for the types involved (compared with the real package on every natively replayed path); strings whose JSON encoding needs escapes other than those in the hole classes; deeper trees",
+	},
+	"C13": {
+		Quick: withOnly([]hrun{
+			{Harness: "JSONBytes", Params: P("N", 0)}, {Harness: "JSONBytes", Params: P("N", 1)}, {Harness: "JSONBytes", Params: P("N", 2)}, {Harness: "JSONBytes", Params: P("N", 3)}, {Harness: "JSONBytes", Params: P("N", 4)}, {Harness: "JSONBytes", Params: P("N", 5)},
+			{Harness: "JSONDoc", Params: P("D", 0, "LITE", 1)},
+		}, nil, true),
+		Thorough: withOnly([]hrun{
+			{Harness: "JSONBytes", Params: P("N", 0)}, {Harness: "JSONBytes", Params: P("N", 1)}, {Harness: "JSONBytes", Params: P("N", 2)}, {Harness: "JSONBytes", Params: P("N", 3)}, {Harness: "JSONBytes", Params: P("N", 4)}, {Harness: "JSONBytes", Params: P("N", 5)}, {Harness: "JSONBytes", Params: P("N", 6)},
+			{Harness: "JSONDoc", Params: P("D", 0)}, {Harness: "JSONDoc", Params: P("D", 1, "LITE", 1), Seconds: 1200},
+		}, nil, true),
+		Bounds:  "all byte strings of length <= 5 (quick) / 6 (thorough) decoded into an Expression; all compact documents {left?, operator?, right?, distance/power/boundaries/extra?} whose members are strings of 0-2 symbolic bytes, numbers, null, true, arrays, range-boundary objects, wrongly typed values, operator names from the table or arbitrary 2-byte strings or a number (nested objects to depth 1 in thorough); decoded expressions that validate go through String, %#v, Marshal, Render, RenderParam",
+		Outside: "encoding/json replaced by the stand-in (see C12); object keys with non-ASCII bytes (cut); documents deeper than the bound; white space between tokens beyond what the byte tier generates",
+	},
 	"C14": {
 		Quick: []hrun{
 			{Harness: "Purity", Params: P("SRC", 0, "D", 1, "LEAVES", 1, "DF", 0)}, {Harness: "Purity", Params: P("SRC", 0, "D", 1, "LEAVES", 1, "DF", 1)},
